@@ -99,6 +99,9 @@ def gen_case(rng, index, tier):
         case['pattern'] = rng.choice(['*', 'e[0-2]*', 'e1*', '*x', 'e*'])
     case['seed'] = rng.getrandbits(30)
     case['kills'] = 0 if tier == 'quick' else rng.choice([0, 0, 3])
+    # the purge (and the purge that cleans up after a killed restore) in its
+    # verbose form as well
+    case['vopt'] = rng.choice([[], [], ['-v'], ['--verbose']])
     return case
 
 
@@ -108,9 +111,9 @@ def command(case, w, lst=None):
         args = ['--overwrite'] if case.get('overwrite') else []
         return 'restore', args
     if cmd == 'empty':
-        return 'empty', []
+        return 'empty', list(case.get('vopt') or [])
     if cmd == 'empty-days':
-        return 'empty', [str(case['days'])]
+        return 'empty', list(case.get('vopt') or []) + [str(case['days'])]
     return 'rm', [case['pattern']]
 
 
@@ -221,7 +224,7 @@ def run_case(case):
                          dest=snap.fmt_diff(snap.sig_diff(pay0, snap.subtree(n1, e['loc'])), 4))
         # (3) re-run to completion
         if cmd == 'restore':
-            r2 = run.run(wk, 'empty', [], stdin=b'',
+            r2 = run.run(wk, 'empty', list(case.get('vopt') or []), stdin=b'',
                          env={'TRASH_DATE': '2099-01-01T00:00:00'})
             a2 = wk.snapshot()
             left = [q for q in a2 if (putcheck.is_payload_root(q) or
